@@ -116,7 +116,13 @@ func (h *ByzHost) serve() {
 					h.harness(fmt.Sprintf("ByzHost handler panic: %v", r))
 				}
 			}()
-			s.SetDeadline(time.Now().Add(30 * time.Second))
+			// byte-level perturbation can leave both sides waiting for bytes
+			// that never come; the host then gives up quickly and closes
+			if h.RawMutate != nil {
+				s.SetDeadline(time.Now().Add(400 * time.Millisecond))
+			} else {
+				s.SetDeadline(time.Now().Add(30 * time.Second))
+			}
 			h.handle(s)
 		}()
 	}
